@@ -191,6 +191,17 @@ def check_strings(ctx, strings, real, tag='main'):
             elif got == 'float' and not same_float(val, spec_float_value(s)):
                 ctx.violation('{!r} constructs {!r}, float() gives {!r}'.format(
                     s, val, spec_float_value(s)), dict(key='value:' + s, string=s))
+            elif st == 'ok':
+                # the seasoning API's view of the same scalar (Node.get_value) is the constructed value
+                try:
+                    gv = ('ok', real.yatiml.Node(real.yaml.ScalarNode(real_tag, s)).get_value())
+                except Exception as e:  # noqa
+                    gv = ('exc', type(e).__name__)
+                ctx.count('get_value_checked')
+                if gv[0] != 'ok' or type(gv[1]) is not type(val) or not (
+                        gv[1] == val or (isinstance(val, float) and same_float(gv[1], val))):
+                    ctx.violation('{!r} resolves as {} and constructs {!r}, but Node.get_value() gives {} {!r}'.format(
+                        s, got, val, gv[0], gv[1]), dict(key='get_value:' + s, string=s))
         # end to end
         if real.plain_scalar(s):
             ctx.count('end_to_end')
@@ -207,7 +218,52 @@ def check_strings(ctx, strings, real, tag='main'):
                     s, st, val, kind), dict(key='load:' + s, string=s, outcome=[st, repr(val)], spec=kind))
 
 
+def explore_typed(ctx):
+    """boolean- / float-looking plain scalars at positions where a type model has a say: an attribute
+    that is an enum in one Union member and a bool / Any in another; judged by the reference pipeline"""
+    import loadgen as G
+    import loadrun as L
+    from props import c02
+    yaml, yatiml = L.setup()
+    rng = ctx.rng
+    P = lambda nm, t, **kw: dict(name=nm, type=t, **kw)   # noqa: E731
+
+    def plain(name, params):
+        return dict(name=name, bases=[], registered=True, kind='plain', params=params, all_params=params,
+                    extra=False, abstract=None, define_init=True)
+    spec = [dict(name='Mode', bases=[], registered=True, kind='enum', members=['true', 'false', 'on', 'yes']),
+            plain('Job', [P('mode', ('cls', 'Mode')), P('retries', ('int',))]),
+            plain('Switch', [P('mode', ('bool',)), P('name', ('str',))])]
+    anymap = ('map', 'dict', ('str',), ('any',))
+    types = [('union', [('cls', 'Job'), anymap]), ('union', [anymap, ('cls', 'Job')]),
+             ('union', [('cls', 'Job'), ('cls', 'Switch')]), ('seq', 'list', ('union', [('cls', 'Job'), anymap])),
+             anymap, ('any',), ('union', [('cls', 'Mode'), ('bool',)]), ('union', [('cls', 'Mode'), ('float',)])]
+    XS = ['true', 'True', 'TRUE', 'false', 'False', 'yes', 'on', 'off', 'no', 'y', 'Yes', '1', '1.5', '.5', '1e5',
+          '.inf', '-.INF', '.nan', '1_000.5', '1:30.5', '~', 'null', 'trueish', '1.2.3', '+.1', '1.']
+    S = G.S
+    for t in types:
+        for x in XS:
+            docs = [('m', [(S('mode'), S(x))], None), ('m', [(S('mode'), S(x)), (S('name'), S('n'))], None),
+                    ('m', [(S('mode'), S(x)), (S('retries'), S('1'))], None),
+                    ('m', [(S('mode'), S(x)), (S('retries'), S('1.5'))], None)]
+            if t[0] == 'seq':
+                docs = [('q', [d], None) for d in docs[:2]] + [('q', docs[2:], None)]
+            if t[0] == 'union' and t[1][0] == ('cls', 'Mode') or t == ('any',):
+                docs = docs[:1] + [S(x)]
+            for d in docs:
+                try:
+                    c = L.build_case(rng, yaml, yatiml, spec, t, d, ('typed-scalars',))
+                    L.run_case(c, yaml)
+                except Exception as e:  # noqa
+                    ctx.count('typed_build_error:' + type(e).__name__)
+                    continue
+                ctx.case(('typed', c.text, repr(t)), nontrivial=True)
+                ctx.count('typed_cases')
+                c02.judge(ctx, c, yaml, yatiml, 'typed-scalars')
+
+
 def explore(ctx):
+    explore_typed(ctx)
     real = Real()
     strings = gen_strings(ctx, ctx.budget(3, 4), ctx.budget(4000, 60000))
     for s in strings[:3] + [x for x in strings if spec_kind(x) != 'other'][:5]:
